@@ -83,7 +83,11 @@ fn main() {
             let done_path = format!("{}.done", args[4]);
             std::fs::write(&done_path, first.to_string()).expect("cannot write progress file");
             let mut nobs = 0usize;
-            run_cases_from(cases, first, Duration::from_millis(to), exec, &mut |i, recs| {
+            // components whose observation is a function of the case alone are also checked for independence of the
+            // calls made before (not the threaded components, whose logs carry timing, nor the dictionary, whose
+            // choice among equally frequent entries may differ from run to run)
+            let echo = ["edit", "match", "metrics", "windows", "cstr", "ws", "tok", "coo", "textfn", "lines", "chat", "editword"].contains(&args[2].as_str());
+            run_cases_from(cases, first, Duration::from_millis(to), echo, exec, &mut |i, recs| {
                 for r in &recs {
                     let r = strip_nulls(r.clone());
                     writeln!(f, "{}", serde_json::to_string(&r).unwrap()).expect("write failed");
